@@ -40,6 +40,29 @@ def main():
                 da = xr.DataArray(np.ones((3, 2, 3)), dims=["zc", "yc", "xc"])
                 m = g.get_metric(da, case["axes"])
                 out.append({"dims": list(m.dims), "vals": [float(v) for v in m.transpose(*sorted(m.dims)).values.ravel()]})
+            elif k == "ufunc":
+                # a user's grid ufunc over several axes that reads the corner of its halo
+                from xgcm.grid_ufunc import apply_as_grid_ufunc
+                names = case["axes"]
+                sz = {a: 3 + i for i, a in enumerate(names)}
+                ds = xr.Dataset(coords={a.lower() + "c": np.arange(n) + 0.5 for a, n in sz.items()})
+                g = Grid(ds, coords={a: {"center": a.lower() + "c"} for a in names}, periodic=False,
+                         autoparse_metadata=False)
+                dims = [a.lower() + "c" for a in names]
+                da = xr.DataArray((np.arange(int(np.prod(list(sz.values())))) * 7 % 23 + 1.0).reshape(
+                    [sz[a] for a in names]), dims=dims)
+                dummies = case["dummies"]
+                sig = "(" + ",".join(f"{d}:center" for d in dummies) + ")->(" + \
+                    ",".join(f"{d}:center" for d in dummies) + ")"
+                nd = len(names)
+
+                def corner(a, nd=nd):
+                    # the value at the low corner of each 3^nd window
+                    return a[(Ellipsis,) + (slice(None, -2),) * nd]
+                r = apply_as_grid_ufunc(corner, da, axis=[tuple(names)], grid=g, signature=sig,
+                                        boundary_width={d: tuple(w) for d, w in case["bw"]},
+                                        boundary=case["boundary"], fill_value=case["fill"], dask="forbidden")
+                out.append({"dims": list(r.dims), "vals": [float(v) for v in r.values.ravel()]})
         except Exception as e:
             out.append({"err": type(e).__name__})
     json.dump(out, sys.stdout)
